@@ -161,7 +161,7 @@ fn check_step<const N: usize>(g: &mut ManiaGradualDifficulty, w: &Witness<N>, m:
     let ghost = ghost_probe();
     let log0 = log_len();
 
-    assert!(g.len() == remaining, "C15 mania: len() equals the number of values still to come");
+    assert!(g.len() == remaining, "C15,C02 mania: len() equals the number of values still to come");
     let (lo, hi) = g.size_hint();
     assert!(lo == g.len() && hi == Some(lo), "C15 mania: size_hint() agrees with len()");
 
@@ -173,7 +173,7 @@ fn check_step<const N: usize>(g: &mut ManiaGradualDifficulty, w: &Witness<N>, m:
 
     if n < remaining {
         let k = p + n + 1; // number of objects the returned value accounts for
-        assert!(res.is_some(), "C15 mania: a value is produced while enough values remain");
+        assert!(res.is_some(), "C15,C02 mania: a value is produced while enough values remain");
         let a = res.unwrap();
         assert!(a.n_objects as usize == k, "C02 mania: n_objects is the prefix length");
         let rate_is_one = w.rate_k == 4 || w.rate_k == 0;
